@@ -149,7 +149,7 @@ theorem SubOK'.transport {P : Program} {depth : Node → Nat} {s s' : St} (hsw :
 
 theorem LaunchSt.transport {P : Program} {s s' : St} {tk tk' : Task} (te : TaskExt s' tk tk')
     {F : Frame} (h : LaunchSt P s tk F)
-    (hready : ∀ d m, tk'.st = .blocked (.cond (.node m)) → ready P s' d m = true →
+    (hready : ∀ d m, d.isRec = false → tk'.st = .blocked (.cond (.node m)) → ready P s' d m = true →
       (ready P s d m = true → OwnerM P s m) → OwnerM P s' m) :
     LaunchSt P s' tk' F := by
   cases F with
@@ -158,10 +158,12 @@ theorem LaunchSt.transport {P : Program} {s s' : St} {tk tk' : Task} (te : TaskE
     cases rest with
     | nil => exact h
     | cons m r =>
+      obtain ⟨hrec, h⟩ := h
+      refine ⟨hrec, ?_⟩
       rcases h with h | ⟨h1, h2⟩
       · exact Or.inl (te.runnable h)
       · rcases te.st with h3 | ⟨w, _, hr, _⟩
-        · exact Or.inr ⟨by rw [h3]; exact h1, fun hrd => hready d m (by rw [h3]; exact h1) hrd h2⟩
+        · exact Or.inr ⟨by rw [h3]; exact h1, fun hrd => hready d m hrec (by rw [h3]; exact h1) hrd h2⟩
         · exact Or.inl ⟨_, hr⟩
   | dagWaitDest d =>
     rcases h with h | h
@@ -181,7 +183,7 @@ theorem TaskOK.transport {P : Program} {depth : Node → Nat} {s s' : St} {tk tk
     (hL : ∀ q, Launched P s q → Launched P s' q)
     (hrun : taskErrors s = [] → s.res P.g.output = none →
       (taskErrors s' = [] ∧ s'.res P.g.output = none) ∨ tk'.st ≠ .blocked (.cond .run))
-    (hready : ∀ d m, tk'.st = .blocked (.cond (.node m)) → ready P s' d m = true →
+    (hready : ∀ d m, d.isRec = false → tk'.st = .blocked (.cond (.node m)) → ready P s' d m = true →
       (ready P s d m = true → OwnerM P s m) → OwnerM P s' m)
     (hstore : ∀ d q pc, tk.frames = [.node d q false pc] → pc ≠ .start → pc ≠ .evWait → s.res q = none → s'.res q = none) :
     TaskOK P depth s' tk' := by
@@ -256,7 +258,7 @@ theorem Struct.close {P : Program} {depth : Node → Nat} {s s1 : St} {t : Nat} 
     (hL : ∀ q, Launched P s q → Launched P (s1.setTask t tk') q)
     (hrun : taskErrors s = [] → s.res P.g.output = none →
       (taskErrors (s1.setTask t tk') = [] ∧ s1.res P.g.output = none) ∨ NoneBlocked s1 (.cond .run))
-    (hready : ∀ (i : Nat) (tki : Task) (d : DagRef) (m : Node), i ≠ t → s1.tasks[i]? = some tki →
+    (hready : ∀ (i : Nat) (tki : Task) (d : DagRef) (m : Node), i ≠ t → s1.tasks[i]? = some tki → d.isRec = false →
       tki.st = .blocked (.cond (.node m)) → ready P s1 d m = true → (ready P s d m = true → OwnerM P s m) →
       OwnerM P (s1.setTask t tk') m)
     (hstore : ∀ (i : Nat) (tk : Task) (d : DagRef) (q : Node) (pc : NodePc), i ≠ t → s.tasks[i]? = some tk →
@@ -295,8 +297,8 @@ theorem Struct.close {P : Program} {depth : Node → Nat} {s s1 : St} {t : Nat} 
           rcases hrun he0 hr0 with h | h
           · exact Or.inl h
           · exact Or.inr (h tk (List.mem_of_getElem? hi))
-        · intro d m hb hr hold'
-          exact hready i tk d m hit hi hb hr hold'
+        · intro d m hrec hb hr hold'
+          exact hready i tk d m hit hi hrec hb hr hold'
         · intro d q pc hf hp1 hp2 hn
           exact hstore i tk0 d q pc hit h0 hf hp1 hp2 hn
       · exact hnew i tk (Nat.le_of_not_lt hold) hi
@@ -835,7 +837,7 @@ theorem struct_node_exec {P : Program} {depth : Node → Nat} {s s1 : St} (hs : 
     rw [← hf'.2.1]; exact hpq
   · intro he0 hr0
     exact Or.inl ⟨herr.mpr he0, by rw [hres]; exact hr0⟩
-  · intro i tki d' m hit hi hb hrd hold
+  · intro i tki d' m hit hi _ hb hrd hold
     have hrd' : ready P s d' m = true := by rw [← ready_congr hres hrh hsw]; exact hrd
     obtain ⟨S, hS, hSs, ho⟩ := hold hrd'
     refine ⟨S, hS, hSs, ho.close e htkt ?_⟩
@@ -905,7 +907,7 @@ theorem Struct.close_same {P : Program} {depth : Node → Nat} {s s1 : St} {t : 
     (hself : TaskOK P depth (s1.setTask t tk') tk')
     (hstart : ∀ d q, tkt.frames = [.node d q false .start] → s.proc q = true)
     (hown : ∀ S, SwOwner s S → SwOwner (s1.setTask t tk') S ∨
-      ∀ m, S ∈ basePreds P m → (∀ d, ready P s d m = false) ∨ NoneBlocked s1 (.cond (.node m)))
+      ∀ m, S ∈ basePreds P m → (∀ d, d.isRec = false → ready P s d m = false) ∨ NoneBlocked s1 (.cond (.node m)))
     (hmain : t = 0 → tk'.frames = [.mgrWait] → ∃ tk1, s1.tasks[1]? = some tk1 ∧ tk1.name = .run)
     (hnew : ∀ (i : Nat) (tk : Task), s.tasks.length ≤ i → s1.tasks[i]? = some tk →
       TaskOK P depth (s1.setTask t tk') tk ∧ tk.mustCancel = false ∧ (∀ x, tk.st ≠ .done (.exc x)) ∧
@@ -920,13 +922,13 @@ theorem Struct.close_same {P : Program} {depth : Node → Nat} {s s1 : St} {t : 
     rw [hproc]; exact hstart d q hf
   · intro he0 hr0
     exact Or.inl ⟨taskErrors_close_nil e htkt he0 hnd (fun i tk hi h => (hnew i tk hi h).2.2.1), by rw [hres]; exact hr0⟩
-  · intro i tki d m hit hi hb hrd hold'
+  · intro i tki d m hit hi hrec hb hrd hold'
     have hrd' : ready P s d m = true := by rw [← ready_congr hres hrh hsw]; exact hrd
     obtain ⟨S, hS, hSs, ho⟩ := hold' hrd'
     rcases hown S ho with h | h
     · exact ⟨S, hS, hSs, h⟩
     · rcases h m hS with h' | h'
-      · rw [h' d] at hrd'; cases hrd'
+      · rw [h' d hrec] at hrd'; cases hrd'
       · exact absurd hb (h' tki (List.mem_of_getElem? hi))
   · intro i tk d q pc hit hi hf _ _ hn
     rw [hres]; exact hn
@@ -1262,7 +1264,7 @@ theorem struct_node_done {P : Program} {depth : Node → Nat} (hp : LiveP P dept
     rw [f3, ← hf'.2.1]; exact hpq
   · intro _ _
     exact Or.inr w2
-  · intro i tki d' m hit hi hb hrd hold
+  · intro i tki d' m hit hi _ hb hrd hold
     by_cases hrd' : ready P s d' m = true
     · obtain ⟨S, hS, hSs, ho⟩ := hold hrd'
       refine ⟨S, hS, hSs, swOwner_keep e htkt ?_ ho⟩
@@ -1291,5 +1293,366 @@ theorem struct_node_done {P : Program} {depth : Node → Nat} (hp : LiveP P dept
     exact absurd hn0 hnc
   · intro i tk hi h
     exact absurd h (fun h' => hnonew i tk hi h')
+
+/-! ### sections of a launch loop (`_run_dag`), in the main task or inside `_run_switch` -/
+
+/-- a task the launch loop has just created -/
+def FreshTask (P : Program) (tk : Task) : Prop :=
+  tk.mustCancel = false ∧ tk.st = .runnable .go ∧
+  ((∃ d q, tk.frames = [.node d q false .start] ∧ tk.name = .node q ∧ P.g.isSwitch q = false) ∨
+   (∃ d S, tk.frames = [.switchStart d S] ∧ tk.name = .node S ∧ P.g.isSwitch S = true))
+
+theorem FreshTask.ok {P : Program} {depth : Node → Nat} {tk : Task} (h : FreshTask P tk) (s' : St) : TaskOK P depth s' tk := by
+  obtain ⟨_, hst, hfr⟩ := h
+  rcases hfr with ⟨d, q, h1, h2, h3⟩ | ⟨d, S, h1, h2, h3⟩
+  · exact .nodeStart tk d q h2 h3 h1 hst
+  · exact .swStart tk d S h2 h3 h1 hst
+
+theorem FreshTask.notExec {P : Program} {tk : Task} (h : FreshTask P tk) :
+    ∀ d n f pc, tk.frames = [.node d n f pc] → pc.exec = false := by
+  intro d n f pc hf
+  obtain ⟨_, _, hfr⟩ := h
+  rcases hfr with ⟨d0, q, h1, _, _⟩ | ⟨d0, S, h1, _, _⟩
+  · rw [h1] at hf; simp only [List.cons.injEq, Frame.node.injEq, and_true] at hf; rw [← hf.2.2.2]; rfl
+  · rw [h1] at hf; simp at hf
+
+/-- who runs the launch loop: the main `_run_dag` task, or a `_run_switch` task inside the sub-DAG of its case -/
+inductive LRole (P : Program) (depth : Node → Nat) (s : St) (tkt : Task) (d : DagRef) : List Frame → Prop
+  | main : tkt.name = .run → d.dest = some P.g.output → P.g.output ∈ d.nodes → LRole P depth s tkt d []
+  | sw (d' : DagRef) (S : Node) : tkt.name = .node S → P.g.isSwitch S = true → SubOK' P depth s d S →
+      LRole P depth s tkt d [.switchRet d' S]
+
+/-- the situation while the launch loop of task `t` runs: the state `s1` is the state `s` at the beginning of the
+section plus the freshly created tasks -/
+structure LCtx (P : Program) (depth : Node → Nat) (s s1 : St) (t : Nat) (tkt : Task) (d : DagRef) (below : List Frame)
+    (rest : List Node) : Prop where
+  hs     : Struct P depth s
+  htkt   : s.tasks[t]? = some tkt
+  hrt    : ∃ rv, tkt.st = .runnable rv
+  role   : LRole P depth s tkt d below
+  dag    : DagOK P d
+  notNode : ∀ d0 n f pc, tkt.frames ≠ [.node d0 n f pc]
+  /-- the old frames of a `_run_switch` task make it the owner of its switch -/
+  oldSw  : ∀ d' S, below = [.switchRet d' S] → (∃ d0, tkt.frames = [.switchStart d0 S]) ∨
+      (∃ d0 sub rest0, tkt.frames = [.dagLaunch sub rest0, .switchRet d0 S])
+  oldMain : below = [] → (∃ d0, tkt.frames = [.dagInit d0]) ∨ (∃ d0 r0, tkt.frames = [.dagLaunch d0 r0]) ∨
+      (∃ d0, tkt.frames = [.dagWaitDest d0])
+  e      : Ext t s s1
+  res    : s1.res = s.res
+  rh     : s1.resHid = s.resHid
+  ph     : s1.procHid = s.procHid
+  sw     : s1.sw = s.sw
+  ev     : s1.evSet = s.evSet
+  proc   : s1.proc = s.proc
+  fresh  : ∀ (i : Nat) (tk : Task), s.tasks.length ≤ i → s1.tasks[i]? = some tk → FreshTask P tk
+  passed : ∀ q ∈ d.nodes, q ∉ rest → Launched P s1 q
+  sub    : ∀ q ∈ rest, q ∈ d.nodes
+  topo   : TopoRest P rest
+
+theorem LCtx.nameNe {P : Program} {depth : Node → Nat} {s s1 : St} {t : Nat} {tkt : Task} {d : DagRef} {below : List Frame}
+    {rest : List Node} (x : LCtx P depth s s1 t tkt d below rest) : tkt.name ≠ .caller := by
+  cases x.role with
+  | main h => rw [h]; intro h'; cases h'
+  | sw d' S h => rw [h]; intro h'; cases h'
+
+/-- the new entry of the launching task is not a node frame, and the task is not `run()` -/
+theorem LCtx.close {P : Program} {depth : Node → Nat} {s s1 : St} {t : Nat} {tkt : Task} {d : DagRef} {below : List Frame}
+    {rest : List Node} (x : LCtx P depth s s1 t tkt d below rest) (hmc : tkt.mustCancel = false) (tk' : Task)
+    (hnm : tk'.name = tkt.name) (hmc' : tk'.mustCancel = false)
+    (hnewf : ∀ d0 n f pc, tk'.frames ≠ [.node d0 n f pc]) (hnd : ∀ y, tk'.st ≠ .done (.exc y))
+    (hself : TaskOK P depth (s1.setTask t tk') tk')
+    (hown : ∀ d' S, below = [.switchRet d' S] → SwOwner (s1.setTask t tk') S ∨
+      ∀ m, S ∈ basePreds P m → ∀ d0, d0.isRec = false → ready P s d0 m = false) :
+    Struct P depth (s1.setTask t tk') := by
+  refine Struct.close_same x.hs x.htkt hnm x.hrt (len_ne_one x.hs x.htkt x.nameNe) x.e x.res x.rh x.ph x.sw x.ev x.proc hmc'
+    ?_ ?_ hnd hself ?_ ?_ ?_ ?_
+  · intro d0 n f pc hf; exact absurd hf (x.notNode d0 n f pc)
+  · intro d0 n f pc hf; exact absurd hf (hnewf d0 n f pc)
+  · intro d0 q hf; exact absurd hf (x.notNode d0 q false .start)
+  · intro S ho
+    -- the owner of `S` is another task, or this task
+    obtain ⟨i, tk, hi, hnd', hfr⟩ := ho
+    by_cases hit : i = t
+    · subst hit
+      rw [x.htkt] at hi; cases hi
+      -- then this task is the `_run_switch` task of `S`
+      cases x.role with
+      | main hn hdst hout =>
+        rcases x.oldMain rfl with ⟨d0, h⟩ | ⟨d0, r0, h⟩ | ⟨d0, h⟩ <;>
+          (rcases hfr with ⟨d1, h'⟩ | ⟨d1, h'⟩ | ⟨d1, s1', h'⟩ | ⟨d1, s1', r1, h'⟩ <;> rw [h] at h' <;> simp at h')
+      | sw d' S' hn hS' hsub =>
+        have hSS : S = S' := by
+          rcases x.oldSw d' S' rfl with ⟨d0, h⟩ | ⟨d0, sub0, r0, h⟩ <;>
+            (rcases hfr with ⟨d1, h'⟩ | ⟨d1, h'⟩ | ⟨d1, s1', h'⟩ | ⟨d1, s1', r1, h'⟩ <;> rw [h] at h' <;> simp at h' <;>
+              first | exact h'.2.symm | exact h'.2.2.symm | exact h'.symm)
+        subst hSS
+        rcases hown d' S rfl with h | h
+        · exact Or.inl h
+        · exact Or.inr (fun m hm => Or.inl (h m hm))
+    · obtain ⟨tk1, h1, te⟩ := x.e.old i tk hi hit
+      exact Or.inl ⟨i, tk1, by rw [getElem?_close (x.e.lt x.htkt), if_neg hit]; exact h1, te.nonDone hnd',
+        by rw [te.frames]; exact hfr⟩
+  · intro ht0
+    subst ht0
+    obtain ⟨tk0, h0, hn0⟩ := x.hs.caller
+    have := x.htkt
+    rw [h0] at this; cases this
+    exact absurd hn0 x.nameNe
+  · intro i tk hi h
+    have hf := x.fresh i tk hi h
+    refine ⟨hf.ok _, hf.1, ?_, hf.notExec⟩
+    intro y hy
+    rw [hf.2.1] at hy; cases hy
+
+theorem block_eq (c : Ctx) (s1 : St) (obs : List Obs) (fs : List Frame) (w : Wait) {tk : Task} (h : s1.tasks[c.t]? = some tk) :
+    (block c s1 obs fs w).1 = s1.setTask c.t { tk with frames := fs, st := .blocked w } := by
+  unfold block; rw [h]
+
+theorem yieldNow_eq (c : Ctx) (s1 : St) (obs : List Obs) (fs : List Frame) {tk : Task} (h : s1.tasks[c.t]? = some tk) :
+    (yieldNow c s1 obs fs).1 = s1.setTask c.t { tk with frames := fs, st := .runnable .go } := by
+  unfold yieldNow; rw [h]
+
+theorem endTask_eq (c : Ctx) (s1 : St) (obs : List Obs) (r : TaskRes) {tk : Task} (h : s1.tasks[c.t]? = some tk) :
+    (endTask c s1 obs r).1 = s1.setTask c.t { tk with frames := [], st := .done r, mustCancel := false } := by
+  unfold endTask; rw [h]
+
+theorem retTo_eq_cons (c : Ctx) (s1 : St) (obs : List Obs) (f : Frame) (fs : List Frame) (v : Val) {tk : Task}
+    (h : s1.tasks[c.t]? = some tk) :
+    (retTo c s1 obs (f :: fs) v).1 = s1.setTask c.t { tk with frames := f :: fs, st := .runnable (.ret v) } := by
+  unfold retTo; simp only []; rw [h]
+
+theorem retTo_eq_nil (c : Ctx) (s1 : St) (obs : List Obs) (v : Val) {tk : Task} (h : s1.tasks[c.t]? = some tk) :
+    (retTo c s1 obs [] v).1 = s1.setTask c.t { tk with frames := [], st := .done .ok, mustCancel := false } := by
+  unfold retTo; simp only []; exact endTask_eq c s1 obs .ok h
+
+/-- the launch bookkeeping after the launching task installed its new entry -/
+theorem LCtx.launched' {P : Program} {depth : Node → Nat} {s s1 : St} {t : Nat} {tkt : Task} {d : DagRef}
+    {below : List Frame} {rest : List Node} (x : LCtx P depth s s1 t tkt d below rest) (tk' : Task)
+    (hnm : tk'.name = tkt.name) {q : Node} (h : Launched P s1 q) : Launched P (s1.setTask t tk') q := by
+  have ht1 : s1.tasks[t]? = some tkt := by rw [x.e.self]; exact x.htkt
+  refine Launched.close (Ext.refl t s1) ht1 hnm h ?_
+  intro d0 hf
+  exact absurd hf (x.notNode d0 q false .start)
+
+/-- the launch loop blocks at node `n`, which is not ready -/
+theorem struct_launch_block {P : Program} {depth : Node → Nat} {s s1 : St} {t : Nat} {tkt : Task} {d : DagRef}
+    {below : List Frame} {n : Node} {rest : List Node} (x : LCtx P depth s s1 t tkt d below (n :: rest))
+    (hmc : tkt.mustCancel = false) (hnr : ready P s1 d n = false) (tk' : Task) (hnm : tk'.name = tkt.name)
+    (hmc' : tk'.mustCancel = false) (hfr : tk'.frames = .dagLaunch d (n :: rest) :: below)
+    (hst : tk'.st = .blocked (.cond (.node n))) : Struct P depth (s1.setTask t tk') := by
+  have hdf : DagFrame P (s1.setTask t tk') (.dagLaunch d (n :: rest)) d :=
+    .launch d n rest (fun q hq hn => x.launched' _ hnm (x.passed q hq hn)) x.sub x.topo
+  have hlst : LaunchSt P (s1.setTask t tk') tk' (.dagLaunch d (n :: rest)) := by
+    refine ⟨x.dag.notRec, Or.inr ⟨hst, ?_⟩⟩
+    intro h
+    rw [ready_setTask, hnr] at h; cases h
+  refine x.close hmc tk' hnm hmc' ?_ ?_ ?_ ?_
+  · intro d0 m f pc hf
+    rw [hfr] at hf
+    cases x.role <;> simp at hf
+  · intro y hy; rw [hst] at hy; cases hy
+  · cases x.role with
+    | main hn hdst hout => exact .main _ _ d (by rw [hnm]; exact hn) hfr hdf x.dag hdst hout hlst
+    | sw d' S hn hS hsub =>
+      refine .swIn _ _ d d' S (by rw [hnm]; exact hn) hS hfr hdf ?_ hlst
+      exact hsub.transport (fun S' lc h => by rw [show (St.setTask s1 t tk').sw = s1.sw from rfl, x.sw]; exact h)
+  · intro d' S hb
+    left
+    refine ⟨t, tk', by rw [getElem?_close (x.e.lt x.htkt), if_pos rfl], ?_,
+      Or.inr (Or.inr (Or.inr ⟨d', d, n :: rest, by rw [hfr, hb]⟩))⟩
+    intro r hr
+    rw [hst] at hr; cases hr
+
+/-- the launch loop is through; the destination has no result yet: the task waits for it -/
+theorem struct_launch_wait {P : Program} {depth : Node → Nat} (hp : LiveP P depth) {s s1 : St} {t : Nat} {tkt : Task}
+    {d : DagRef} {below : List Frame} (x : LCtx P depth s s1 t tkt d below [])
+    (hmc : tkt.mustCancel = false) (hne : ∀ dn, d.dest = some dn → s1.exists dn = false) (tk' : Task)
+    (hnm : tk'.name = tkt.name) (hmc' : tk'.mustCancel = false) (hfr : tk'.frames = .dagWaitDest d :: below)
+    (hst : tk'.st = .blocked (.cond d.destKey)) : Struct P depth (s1.setTask t tk') := by
+  have hdf : DagFrame P (s1.setTask t tk') (.dagWaitDest d) d :=
+    .wait d (fun q hq => x.launched' _ hnm (x.passed q hq (by simp)))
+  have hlst : LaunchSt P (s1.setTask t tk') tk' (.dagWaitDest d) := Or.inr hst
+  refine x.close hmc tk' hnm hmc' ?_ ?_ ?_ ?_
+  · intro d0 m f pc hf
+    rw [hfr] at hf
+    cases x.role <;> simp at hf
+  · intro y hy; rw [hst] at hy; cases hy
+  · cases x.role with
+    | main hn hdst hout => exact .main _ _ d (by rw [hnm]; exact hn) hfr hdf x.dag hdst hout hlst
+    | sw d' S hn hS hsub =>
+      refine .swIn _ _ d d' S (by rw [hnm]; exact hn) hS hfr hdf ?_ hlst
+      exact hsub.transport (fun S' lc h => by rw [show (St.setTask s1 t tk').sw = s1.sw from rfl, x.sw]; exact h)
+  · intro d' S hb
+    -- the selected case has no result: no consumer of `S` is ready
+    right
+    intro m hm d0 hd0
+    cases x.role with
+    | main hn hdst hout => cases hb
+    | sw d'' S' hn hS hsub =>
+      simp only [List.cons.injEq, Frame.switchRet.injEq, and_true] at hb
+      obtain ⟨_, hSS⟩ := hb
+      subst hSS
+      obtain ⟨l, c, hsw, hdc, _, _⟩ := hsub.sel
+      have hnc : s.exists c = false := by
+        have := hne c hdc
+        simpa [St.exists, x.res, x.rh] using this
+      unfold ready
+      rw [predsFor_eq hp.sw s d0 hd0 m, List.all_eq_false]
+      refine ⟨c, ?_, by simp [hnc]⟩
+      rw [List.mem_map]
+      exact ⟨S', hm, by simp [resolveSw, hS, hsw]⟩
+
+/-- `_run_dag` returns to `_run_switch` (the case has a result, or nothing was left to launch): the task is about to
+notify the consumers of the switch -/
+theorem struct_launch_ret_sw {P : Program} {depth : Node → Nat} {s s1 : St} {t : Nat} {tkt : Task}
+    {d d' : DagRef} {S : Node} {rest : List Node} (x : LCtx P depth s s1 t tkt d [.switchRet d' S] rest)
+    (hmc : tkt.mustCancel = false) (hcase : ∀ l c, s.sw S = some (l, c) → s1.proc c = true) (tk' : Task)
+    (hnm : tk'.name = tkt.name) (hmc' : tk'.mustCancel = false) (hfr : tk'.frames = [.switchRet d' S])
+    (hst : ∃ v, tk'.st = .runnable (.ret v)) : Struct P depth (s1.setTask t tk') := by
+  refine x.close hmc tk' hnm hmc' ?_ ?_ ?_ ?_
+  · intro d0 m f pc hf
+    rw [hfr] at hf; simp at hf
+  · intro y hy; obtain ⟨v, hv⟩ := hst; rw [hv] at hy; cases hy
+  · cases x.role with
+    | sw d'' S' hn hS hsub =>
+      obtain ⟨l, c, hsw, _, _, _⟩ := hsub.sel
+      refine .swRet _ d' S (by rw [hnm]; exact hn) hS hfr hst ⟨l, c, ?_, ?_⟩
+      · rw [show (St.setTask s1 t tk').sw = s1.sw from rfl, x.sw]; exact hsw
+      · unfold Launched
+        rw [if_neg (by rw [(x.hs.data.swEdge S l c hsw).1]; simp)]
+        exact Or.inl (hcase l c hsw)
+  · intro d'' S' hb
+    simp only [List.cons.injEq, Frame.switchRet.injEq, and_true] at hb
+    obtain ⟨_, hSS⟩ := hb
+    subst hSS
+    left
+    refine ⟨t, tk', by rw [getElem?_close (x.e.lt x.htkt), if_pos rfl], ?_, Or.inr (Or.inl ⟨d', hfr⟩)⟩
+    intro r hr
+    obtain ⟨v, hv⟩ := hst
+    rw [hv] at hr; cases hr
+
+/-- the main `_run_dag` returns: the output has a result -/
+theorem struct_launch_ret_main {P : Program} {depth : Node → Nat} {s s1 : St} {t : Nat} {tkt : Task}
+    {d : DagRef} {rest : List Node} (x : LCtx P depth s s1 t tkt d [] rest)
+    (hmc : tkt.mustCancel = false) (hout : (s1.res P.g.output).isSome = true) (tk' : Task)
+    (hnm : tk'.name = tkt.name) (hmc' : tk'.mustCancel = false) (hfr : tk'.frames = [])
+    (hst : tk'.st = .done .ok) : Struct P depth (s1.setTask t tk') := by
+  refine x.close hmc tk' hnm hmc' ?_ ?_ ?_ ?_
+  · intro d0 m f pc hf
+    rw [hfr] at hf; simp at hf
+  · intro y hy; rw [hst] at hy; cases hy
+  · cases x.role with
+    | main hn hdst hout' => exact .mainDone _ (by rw [hnm]; exact hn) hfr hst hout
+  · intro d' S hb
+    cases hb
+
+theorem TopoRest.tail {P : Program} {n : Node} {rest : List Node} (h : TopoRest P (n :: rest)) : TopoRest P rest := by
+  intro pre m post hr u hu
+  exact h (n :: pre) m post (by rw [hr]; rfl) u hu
+
+theorem LCtx.self1 {P : Program} {depth : Node → Nat} {s s1 : St} {t : Nat} {tkt : Task} {d : DagRef} {below : List Frame}
+    {rest : List Node} (x : LCtx P depth s s1 t tkt d below rest) : s1.tasks[t]? = some tkt := by
+  rw [x.e.self]; exact x.htkt
+
+/-- the launch loop creates the task of `n` and goes on -/
+theorem LCtx.step {P : Program} {depth : Node → Nat} (hp : LiveP P depth) {s s1 : St} {t : Nat} {tkt : Task} {d : DagRef}
+    {below : List Frame} {n : Node} {rest : List Node} (x : LCtx P depth s s1 t tkt d below (n :: rest)) :
+    LCtx P depth s (Eng.spawn s1 [launchFrame P d n] (.node n)).1 t tkt d below rest := by
+  have hlt : t < s1.tasks.length := getElem?_lt x.self1
+  have e2 : Ext t s1 (Eng.spawn s1 [launchFrame P d n] (.node n)).1 := Ext.spawn s1 _ _ hlt
+  have hnewtask : (Eng.spawn s1 [launchFrame P d n] (.node n)).1.tasks[s1.tasks.length]? =
+      some { frames := [launchFrame P d n], st := .runnable .go, name := .node n } := by
+    simp [Eng.spawn]
+  refine { hs := x.hs, htkt := x.htkt, hrt := x.hrt, role := x.role, dag := x.dag, notNode := x.notNode, oldSw := x.oldSw,
+           oldMain := x.oldMain, e := x.e.trans e2, res := x.res, rh := x.rh, ph := x.ph, sw := x.sw, ev := x.ev,
+           proc := x.proc, fresh := ?_, passed := ?_, sub := fun q hq => x.sub q (by simp [hq]), topo := x.topo.tail }
+  · intro i tk hi h
+    by_cases hlt' : i < s1.tasks.length
+    · have : s1.tasks[i]? = some tk := by
+        simp only [Eng.spawn] at h
+        rw [List.getElem?_append_left hlt'] at h; exact h
+      exact x.fresh i tk hi this
+    · have hi' : i = s1.tasks.length := by
+        have := getElem?_lt h
+        simp only [Eng.spawn, List.length_append, List.length_singleton] at this
+        omega
+      subst hi'
+      rw [hnewtask] at h; cases h
+      refine ⟨rfl, rfl, ?_⟩
+      unfold launchFrame
+      split
+      · next hS => exact Or.inr ⟨d, n, rfl, rfl, hS⟩
+      · next hS =>
+        rw [if_neg (by rw [hp.sw.noHead n]; simp)]
+        exact Or.inl ⟨d, n, rfl, rfl, by simpa using hS⟩
+  · intro q hq hnr
+    by_cases hqn : q = n
+    · subst hqn
+      unfold Launched
+      split
+      · exact ⟨s1.tasks.length, _, hnewtask, rfl⟩
+      · next hS =>
+        refine Or.inr ⟨s1.tasks.length, _, d, hnewtask, ?_, rfl⟩
+        show [launchFrame P d q] = _
+        unfold launchFrame
+        rw [if_neg hS, if_neg (by rw [hp.sw.noHead q]; simp)]
+    · exact (x.passed q hq (by simp [hqn, hnr])).ext e2
+
+/-- **the launch loop** (`_run_dag` from any point of its node list on) preserves the invariant -/
+theorem struct_dagLaunch {P : Program} {depth : Node → Nat} (hp : LiveP P depth) (c : Ctx) (hcP : c.P = P) {s : St}
+    {tkt : Task} {d : DagRef} {below : List Frame} (hmc : tkt.mustCancel = false) :
+    ∀ (rest : List Node) (s1 : St) (obs : List Obs), LCtx P depth s s1 c.t tkt d below rest →
+      Struct P depth (dagLaunch c d below s1 obs rest).1 := by
+  intro rest
+  induction rest with
+  | nil =>
+    intro s1 obs x
+    simp only [dagLaunch]
+    unfold dagWaitDest
+    have hself := x.self1
+    cases hdd : d.dest with
+    | none =>
+      exfalso
+      cases x.role with
+      | main hn hdst hout => rw [hdd] at hdst; cases hdst
+      | sw d' S hn hS hsub => obtain ⟨l, c', _, h, _⟩ := hsub.sel; rw [hdd] at h; cases h
+    | some dn =>
+      simp only []
+      split
+      · next hex =>
+        -- the destination has a result: return
+        have hres : (s1.res dn).isSome = true := by
+          simp only [St.exists, Bool.and_eq_true] at hex; exact hex.1
+        cases hr : x.role with
+        | main hn hdst hout =>
+          rw [retTo_eq_nil c s1 obs _ hself]
+          rw [hdd] at hdst; cases hdst
+          exact struct_launch_ret_main x hmc hres _ rfl rfl rfl rfl
+        | sw d' S hn hS hsub =>
+          rw [retTo_eq_cons c s1 obs _ _ _ hself]
+          refine struct_launch_ret_sw x hmc ?_ _ rfl hmc rfl ⟨_, rfl⟩
+          intro l c1 hsw
+          obtain ⟨l', c2, hsw', hdc, _, _⟩ := hsub.sel
+          have hcc : c1 = c2 := by rw [hsw] at hsw'; cases hsw'; rfl
+          have hcd : c2 = dn := by rw [hdd] at hdc; cases hdc; rfl
+          rw [x.proc, hcc, hcd]
+          exact x.hs.data.c6 dn (by rw [← x.res]; exact hres)
+      · next hex =>
+        rw [block_eq c s1 obs _ _ hself]
+        refine struct_launch_wait hp x hmc ?_ _ rfl hmc rfl (by simp [DagRef.destKey, hdd])
+        intro dn' hdn'
+        rw [hdd] at hdn'; cases hdn'
+        simpa using hex
+  | cons n rest ih =>
+    intro s1 obs x
+    simp only [dagLaunch, x.dag.notOne, Bool.false_and, Bool.false_eq_true, if_false]
+    split
+    · next hr =>
+      rw [hcP]
+      exact ih _ _ (x.step hp)
+    · next hr =>
+      rw [block_eq c s1 obs _ _ x.self1]
+      refine struct_launch_block x hmc ?_ _ rfl hmc rfl rfl
+      rw [← hcP]; simpa using hr
 
 end MLPE.Eng
